@@ -29,7 +29,7 @@ PROPS["C18"] = dict(
     level="exploration",
     rule=("history: every sequence over {add,back,forward} up to length 9 (quick) / 11 (thorough) enumerated, plus random "
           "sequences up to length 200; feed: every sequence of {append k, prepend k, up, down, centre} (k<=2) up to length 5 "
-          "(quick) / 7 (thorough) after each of 5 constructors (Create, CreateAndAppend with 0..3 items), plus random sequences up to length 200; after every step the "
+          "(quick) / 6 (thorough) after each of 5 constructors (Create, CreateAndAppend with 0..3 items), plus random sequences up to length 200; after every step the "
           "implementation is compared with a list-with-cursor / two-sided-sequence model (Current, IsEmpty, full contents by "
           "walking a copy; Contains/Get/IsParent/IsChild at offsets -6..6). Non-trivial: history sequence with an add after an "
           "effective back; feed sequence that grows on both sides after the cursor moved. Distinct = distinct op sequence."),
